@@ -203,7 +203,7 @@ func TestVF_C08_Histories(t *testing.T) {
 	// histories refuse packets all the time; the package's own knob is turned down so that a history stays in
 	// the millisecond range. No logic is changed.
 	backoff = 2 * time.Millisecond
-	nCases := vfPick(500, 6000)
+	nCases := vfPick(420, 6000)
 	par := 20
 	base, err := os.MkdirTemp("", "vf-c08-")
 	if err != nil {
